@@ -215,7 +215,8 @@ def gen_spec(ctx, rng, tier, force=None):
     if gran == 'line' and not force.get('no_kill') and rng.random() < 0.08:
         # fault: one thread's call dies part-way (failed allocation) while the others go on
         kt = rng.randrange(T)
-        kill = {'t': kt, 'k': rng.randrange(max(1, sum(solo[kt]))), 'exc': 'MemoryError'}
+        ipts = sum(ctx.oracle(c, gran='ipoint')['isteps'] for c in threads[kt])
+        kill = {'t': kt, 'k': rng.randrange(max(1, ipts)), 'exc': 'MemoryError'}
     spec = {
         'threads': threads, 'warm': warm, 'plan': plan, 'seed': rng.getrandbits(48),
         'budget': budget, 'est_len': est, 'gran': gran, 'post': True,
